@@ -53,6 +53,9 @@ func add(_ *dataTreeNavigator, context Context, lhs *CandidateNode, rhs *Candida
 		return lhs.Copy(), nil
 	} else if lhsNode.Tag == "!!null" {
 		return lhs.CopyAsReplacement(rhs), nil
+	} else if rhs.Tag == "!!null" {
+		// null adds nothing, on the right as on the left
+		return lhs.Copy(), nil
 	}
 
 	target := lhs.CopyWithoutContent()
